@@ -224,7 +224,8 @@ Section Full.
 
   (* ---- the round trip ---------------------------------------------------------------------------- *)
   Variable M : stree -> option utree.
-  Hypothesis M_ok : forall t u, M t = Some u -> exists data cs, t = Node data cs /\ supported us P u data cs.
+  (* only asked of trees the parser can return *)
+  Hypothesis M_ok : forall t u, ptree t -> M t = Some u -> exists data cs, t = Node data cs /\ supported us P u data cs.
   Hypothesis M_complete : forall data cs, (exists u, supported us P u data cs) -> M (Node data cs) <> None.
 
   Lemma recon_succeeds : forall f t, ptree t -> height t <= f -> exists toks, recon lit M f t = Ok toks.
@@ -235,7 +236,7 @@ Section Full.
       set (data := sym_name pr) in *. set (cs := kids us (DNode pr ds)) in *.
       destruct (match_exists us P Hc Hx pr ds Hwf Hun) as (u0 & Hs0).
       destruct (M (Node data cs)) as [u|] eqn:EM; [|exfalso; eapply M_complete; eauto].
-      destruct (M_ok _ _ EM) as (data' & cs' & E & Hsup). inversion E; subst data' cs'. clear E.
+      destruct (M_ok _ _ Hp EM) as (data' & cs' & E & Hsup). inversion E; subst data' cs'. clear E.
       destruct Hsup as (r & args & -> & Hin & Hu & Hl & _).
       destruct (rfr_kind us P _ _ Hin) as (pr' & HinP' & -> & Hsn).
       cbn [regular Recons.regular r_exp r_orig] in *. cbn [leaves] in Hl.
@@ -253,19 +254,81 @@ Section Full.
       apply IH; auto. pose proof (height_child data cs _ Hitems). lia.
   Qed.
 
-  Theorem recons_token_roundtrip start pr0 ds0 :
+  (* soundness along parser trees (the matcher hypothesis is only used on parser trees) *)
+  Lemma recon_sound_p : forall f t toks, ptree t -> recon lit M f t = Ok toks ->
+    exists data cs pr ds, t = Node data cs /\ wf (DNode pr ds) /\ sym_name pr = data /\
+                          shape us (DNode pr ds) = t /\ yield (DNode pr ds) = toks.
+  Proof.
+    induction f as [|f IH]; intros t toks Hp H; simpl in H; [discriminate|].
+    destruct (ptree_node _ Hp) as (pr0 & ds0 & Hwf0 & Hun0 & -> & HinP0).
+    set (data := sym_name pr0) in *. set (cs := kids us (DNode pr0 ds0)) in *.
+    destruct (M (Node data cs)) as [u|] eqn:EM; [|discriminate].
+    destruct (M_ok _ _ Hp EM) as (data' & cs' & E & Hsup). inversion E; subst data' cs'. clear E.
+    destruct (write lit u) as [c0|[items| |]] eqn:Ew; try discriminate.
+    destruct (expand_ok _ _ _ H) as (Hsub & ->).
+    assert (Hch : Forall child_ok cs).
+    { destruct (kids_children (DNode pr0 ds0) Hwf0) as (H1 & _). exact H1. }
+    assert (Hitems : forall c, In (WChild c) items -> In c cs).
+    { pose proof Hsup as (r & args & Eu & Hin & Hu & Hl & _). subst u.
+      destruct (rfr_kind us P _ _ Hin) as (pr' & HinP' & -> & Hsn).
+      cbn [regular Recons.regular r_exp r_orig] in *. cbn [leaves] in Hl.
+      destruct (walk_ok (p_exp pr') args) as (items' & Hw & Hit); auto.
+      { apply Forall_forall. intros; apply write_ok. }
+      { intros s Hs. exists pr'. auto. }
+      { rewrite Hl. exact Hch. }
+      cbn [write Recons.regular r_orig] in Ew. rewrite Hw in Ew. inversion Ew; subst items'.
+      intros c Hq. rewrite <- Hl. apply Hit; auto. }
+    set (Y := fun c => match recon lit M f c with Ok l => l | _ => [] end).
+    destruct (write_tokens_yield us P Hc lit Y data cs u items Hsup Ew) as (pr & ds & Hwf & Hsn & _ & Hsh & Hy).
+    - intros c Hin. specialize (Hsub c Hin). destruct c as [n s|d cs0]; [exact I|]. unfold sub_ok.
+      destruct Hsub as (l & El).
+      assert (Hpc : ptree (Node d cs0)).
+      { rewrite Forall_forall in Hch. apply (Hch _ (Hitems _ Hin)). }
+      destruct (IH _ _ Hpc El) as (d' & cs' & pr & ds & E & Hwf & Hsn & Hsh & Hy).
+      exists pr, ds. repeat split; auto; try congruence. unfold Y. rewrite El. exact Hy.
+    - exists data, cs, pr, ds. repeat split; auto.
+  Qed.
+
+  Theorem recons_token_roundtrip_p start pr0 ds0 :
     wf (DNode pr0 ds0) -> p_origin pr0 = start -> ~ In start (expand1s P) -> us start = false ->
     exists fuel toks, recon lit M fuel (shape us (DNode pr0 ds0)) = Ok toks /\
       parses us P start toks (shape us (DNode pr0 ds0)) /\
       (unambiguous P start -> forall t', parses us P start toks t' -> t' = shape us (DNode pr0 ds0)).
   Proof.
-    intros Hwf Hs Hne Hus.
+    intros Hwf0 Hs0 Hne Hus.
     assert (Hun : uncollapsed us (DNode pr0 ds0)).
-    { split; [rewrite Hs; auto|]. intros He _. exfalso. apply Hne. rewrite <- Hs.
-      unfold expand1s. apply in_map. apply filter_In. split; auto. apply (wf_root _ _ _ Hwf). }
+    { split; [rewrite Hs0; auto|]. intros He _. exfalso. apply Hne. rewrite <- Hs0.
+      unfold expand1s. apply in_map. apply filter_In. split; auto. apply (wf_root _ _ _ Hwf0). }
     assert (Hp : ptree (shape us (DNode pr0 ds0))) by (exists pr0, ds0; auto).
     destruct (recon_succeeds (height (shape us (DNode pr0 ds0))) _ Hp (le_n _)) as (toks & Hr).
     exists (height (shape us (DNode pr0 ds0))), toks. split; auto.
-    apply (recons_token_roundtrip_partial us P Hc lit M M_ok start pr0 ds0 (height (shape us (DNode pr0 ds0))) toks); auto.
+    destruct (recon_sound_p _ _ _ Hp Hr) as (data & cs & pr & ds & E & Hwf & Hsn & Hsh & Hy).
+    destruct (wf_root _ _ _ Hwf0) as (Hin0 & _). destruct (wf_root _ _ _ Hwf) as (Hin & _).
+    assert (Hd : data = sym_name pr0).
+    { rewrite (uncollapsed_shape _ _ Hun) in E. inversion E; auto. }
+    assert (Ho : p_origin pr = start).
+    { rewrite <- Hs0. apply (same_name_same_origin us P Hc); auto. congruence. }
+    assert (Hpar : parses us P start toks (shape us (DNode pr0 ds0))).
+    { exists pr, ds. repeat split; auto. }
+    split; auto.
+    intros Hunamb t' (pr' & ds' & Hwf' & Ho' & Hy' & Hsh').
+    assert (DNode pr' ds' = DNode pr ds) by (apply Hunamb; auto; congruence).
+    rewrite <- Hsh', H. exact Hsh.
   Qed.
 End Full.
+
+(* the same with the matcher hypothesis asked of every tree (the round-5 statement) *)
+Theorem recons_token_roundtrip us P (Hc : cls us P) (Hx : cls_extra us P) lit
+  (Hlit : forall r n, In r P -> In (Tm n true) (p_exp r) -> lit n <> None)
+  (Hdisj : forall r n fo, In r P -> In (Tm n fo) (p_exp r) ->
+           forall r', In r' P -> p_origin r' <> n /\ p_alias r' <> Some n)
+  M (M_ok : forall t u, M t = Some u -> exists data cs, t = Node data cs /\ supported us P u data cs)
+  (M_complete : forall data cs, (exists u, supported us P u data cs) -> M (Node data cs) <> None)
+  start pr0 ds0 :
+  wf P (DNode pr0 ds0) -> p_origin pr0 = start -> ~ In start (expand1s P) -> us start = false ->
+  exists fuel toks, recon lit M fuel (shape us (DNode pr0 ds0)) = Ok toks /\
+    parses us P start toks (shape us (DNode pr0 ds0)) /\
+    (unambiguous P start -> forall t', parses us P start toks t' -> t' = shape us (DNode pr0 ds0)).
+Proof.
+  apply (recons_token_roundtrip_p us P Hc Hx lit Hlit Hdisj M); auto.
+Qed.
